@@ -193,7 +193,8 @@ UNFOLD['SpreadsPossibleUpTo'] = _poss
 def spread_site(x):
     sp = lookup(V.ditems(x), S('spread'))
     return z3.And(V.is_Dict(x), exact(sp, 'FragmentSpreadNode'), V.oref(sp) >= 0, exact(attr0(sp, 'name'), 'NameNode'), V.oref(attr0(sp, 'name')) >= 0,
-                  V.is_Str(attr0(attr0(sp, 'name'), 'value')), lookup(V.ditems(x), S('path')) != V.Missing)
+                  V.is_Str(attr0(attr0(sp, 'name'), 'value')), lookup(V.ditems(x), S('path')) != V.Missing,
+                  z3.Or(lookup(V.ditems(x), S('path')) == V.None_, PathWf(lookup(V.ditems(x), S('path')))))
 
 
 AllSites = ForallList('spread_site', spread_site)
@@ -242,7 +243,89 @@ class ValidateSpreads(Contract):
         return [('reports_iff_some_site_is_impossible', z3.And(V.is_List(out.value), VL.is_nil(V.items(out.value)) == PossUpTo(A['fragments'], si, length(si))))]
 
 
-CONTRACTS = [TypeCompatibility(), ValidateUsage(), FindVariableByName(), ValidateNode(), ValidateSpreads()]
+def frag_node_wf(n):
+    tc = attr0(n, 'type_condition')
+    return z3.And(z3.Or(exact(n, 'InlineFragmentNode'), z3.And(exact(n, 'FragmentDefinitionNode'), exact(attr0(n, 'name'), 'NameNode'), V.oref(attr0(n, 'name')) >= 0,
+                                                                V.is_Str(attr0(attr0(n, 'name'), 'value')))),
+                  V.oref(n) >= 0,
+                  z3.Or(tc == V.None_, z3.And(exact(tc, 'NamedTypeNode'), V.oref(tc) >= 0, exact(attr0(tc, 'name'), 'NameNode'), V.oref(attr0(tc, 'name')) >= 0,
+                                             V.is_Str(attr0(attr0(tc, 'name'), 'value')))))
+
+
+AllFragNodes = ForallList('fragment_node', frag_node_wf)
+
+
+def node_possible(schema, node, parent_type):
+    """5.5.2.3 for one spread / inline fragment under a composite parent type"""
+    tc = attr0(node, 'type_condition')
+    ct = lookup(V.ditems(attr0(schema, 'type_definitions')), attr0(attr0(tc, 'name'), 'value'))
+    return z3.Not(z3.And(tc != V.None_, ct != V.Missing, inst(ct, 'GraphQLCompositeType'), z3.Not(Overlap(ct, PossibleSet(parent_type)))))
+
+
+NodesPossible = z3.RecFunction('NodesPossibleUpTo', V, VL, V, IntS, BoolS)      # schema, nodes, parent type, k
+_sc, _pt = z3.Consts('np_schema np_parent', V)
+_nl = z3.Const('np_nodes', VL)
+_nk = z3.Int('np_k')
+_np = lambda sc, nl, pt, k: z3.If(k <= 0, True, z3.And(NodesPossible(sc, nl, pt, k - 1), node_possible(sc, nth(nl, k - 1), pt)))
+z3.RecAddDefinition(NodesPossible, [_sc, _nl, _pt, _nk], _np(_sc, _nl, _pt, _nk))
+UNFOLD['NodesPossibleUpTo'] = _np
+
+
+class ValidateIsPossible(Contract):
+    """_validate_is_possible (with the private helper _validate_node executed in place, so that the pair is checked as one unit and a
+    refactoring of the helper's signature does not make the contract stale): an error is reported exactly when some node's condition
+    is an existing composite type whose possible types do not overlap those of the (existing, composite) parent type"""
+    key = F + 'FragmentSpreadIsPossible._validate_is_possible'
+    property_ids = ('C06', 'C07')
+    params = ['self', 'type_name', 'nodes', 'message', 'path', 'schema', 'locations']
+    self_class = 'FragmentSpreadIsPossible'
+    inline = (F + '_validate_node',)
+    timeout_ms = 8000
+
+    def args(self, en, names):
+        self.A = super().args(en, names)
+        return self.A
+
+    def pre(self, A, st):
+        sc = A['schema']
+        return [('schema', z3.And(exact(sc, 'GraphQLSchema'), V.oref(sc) >= 0, V.is_Dict(attr0(sc, 'type_definitions')))),
+                ('type_name', V.is_Str(A['type_name'])), ('nodes', z3.And(V.is_List(A['nodes']), AllFragNodes(V.items(A['nodes'])))),
+                ('message', z3.Or(A['message'] == S('inline'), z3.And(A['message'] == S('spread'), V.is_List(A['locations']), AllSites(V.items(A['locations'])),
+                                                                        length(V.items(A['locations'])) == length(V.items(A['nodes'])),
+                                                                        AllNamedFrags(V.items(A['nodes']))))),
+                ('self', V.oref(A['self']) >= 0), ('path', z3.Or(A['path'] == V.None_, PathWf(A['path'])))]
+
+    def parent(self, A=None):
+        A = A or self.A
+        return lookup(V.ditems(attr0(A['schema'], 'type_definitions')), A['type_name'])
+
+    def getattr_hook(self, en, st, v, attr):
+        if attr == 'possible_types_set' and not z3.eq(v, self.A['schema']):
+            return [(st.assume(V.is_Set(PossibleSet(v))), PossibleSet(v))]
+        return None
+
+    def _inv(self, en, st, k, st0):
+        errors = V.items(en.read(st.env['errors'], st))
+        pth = en.read(st.env['path'], st)
+        return {'errors_iff_some_node_impossible': VL.is_nil(errors) == NodesPossible(self.A['schema'], V.items(self.A['nodes']), self.parent(), k),
+                'path_is_a_path': z3.Or(pth == V.None_, PathWf(pth))}
+
+    @property
+    def loops(self):
+        return {0: LoopContract(self._inv)}
+
+    def post(self, A, st0, out):
+        if out.kind == 'raise':
+            return never_raises(out)
+        pt = self.parent(A)
+        nl = V.items(A['nodes'])
+        checked = z3.And(pt != V.Missing, inst(pt, 'GraphQLCompositeType'))
+        return [('is_list', V.is_List(out.value)),
+                ('reports_iff_some_node_is_impossible', VL.is_nil(V.items(out.value)) == z3.Or(z3.Not(checked), NodesPossible(A['schema'], nl, pt, length(nl))))]
+
+
+AllNamedFrags = ForallList('named_fragment', lambda n: z3.And(exact(n, 'FragmentDefinitionNode'), ast_node(attr0(n, 'type_condition'))))
+CONTRACTS = [TypeCompatibility(), ValidateUsage(), FindVariableByName(), ValidateNode(), ValidateSpreads(), ValidateIsPossible()]
 LEMMAS = []
 
 
